@@ -709,10 +709,54 @@ func checkGrow(r *Run, rc *RuleCtx, le *linEval, grow *ssa.Function, rawF *types
 	pr := newProver(p, grow)
 	n := grow.Params[1]
 	rawS := indexStores(grow, rawF)
+	repS := map[string]bool{}
 	q := &PathQuery{P: p, Fn: grow}
 	q.Step = func(in ssa.Instruction, deferred bool, st uint64, c *PathCtx) (uint64, bool) {
 		if i, ok := rawS.idx[in]; ok {
 			st = uint64(i)
+		}
+		// re-slicing the buffer beyond its length: the bound must not exceed the capacity of the
+		// slice the field holds on this path (the last store's value, or the field itself)
+		if sl, ok := in.(*ssa.Slice); ok && !deferred && sl.High != nil {
+			if ld, isLd := sl.X.(*ssa.UnOp); isLd && ld.Op == token.MUL {
+				if _, f := loadedField(ld); f == rawF && f != nil {
+					var capL lin
+					extra := []ssa.Value{ld}
+					if st == 0 {
+						// nothing stored on this path yet: every load of the field reads the value it had
+						// on entry, which the first load names
+						first := ssa.Value(ld)
+						for _, a := range fieldAccesses(grow, rawF) {
+							if a.Kind == "load" {
+								if fv, isV := a.Instr.(ssa.Value); isV && a.Instr.Block() == grow.Blocks[0] {
+									first = fv
+								}
+								break
+							}
+						}
+						capL = lin{"cap(" + pr.K.Key(first) + ")", 0}
+						extra = append(extra, first)
+					} else {
+						val := rawS.stores[st-1].Val
+						if mk, isMk := val.(*ssa.MakeSlice); isMk {
+							cv := c.Resolve(mk.Cap)
+							capL = pr.lin(cv)
+							extra = append(extra, cv)
+						} else {
+							capL = lin{"cap(" + pr.K.Key(val) + ")", 0}
+							extra = append(extra, val)
+						}
+					}
+					key := fmt.Sprintf("grow|reslice@b%d|%d", sl.Block().Index, st)
+					hv := c.Resolve(sl.High)
+					res := pr.Prove(sl, Goal{X: hv, YL: &capL, C: 0, extra: extra, assume: c.PathConds()})
+					rc.Instance(key, true, nil)
+					if !res.OK && !repS[key] {
+						repS[key] = true
+						rc.ViolationPath(grow, instrPos(sl), "re-slice beyond the capacity", "grow re-slices Raw to n on a path where cap(Raw) >= n is not established ("+res.Goal+"): the slice expression panics for such n instead of growing the buffer", c.Witness(grow, sl))
+					}
+				}
+			}
 		}
 		return st, false
 	}
